@@ -7,38 +7,66 @@
    returns the view; ViewCoherent says it equals the from-scratch rendering of
    the in-memory lists, in particular that every list is represented.
 
+   Besides the lists the record has header fields that are simply assigned
+   (dut_id by the trigger phase and again by later phases, outcome, end time,
+   marginal) or grow without an add_* call (outcome_details, metadata keys);
+   they are rendered anew on every read: SetHdr / ReadRecord, HeaderCoherent.
+   Every history of MaxOps operations is emitted and replayed on a real
+   TestRecord, each read compared with the rendering of a record rebuilt from
+   scratch.
+
    The measurement part of the view (values, overrides, transforms, live view
    of the running phase) is specified in Measurement.tla (action Read). *)
 EXTENDS Naturals, Sequences, FiniteSets, TLC
 
-CONSTANTS MaxAdds
+CONSTANTS MaxAdds,
+          MaxOps     \* bound on the emitted histories (adds, header changes, reads)
 
 Lists == {"phases", "subtests", "branches", "checkpoints", "diagnoses", "log_records"}
 
+Hdrs == {"dut_id", "outcome", "end_time_millis", "marginal", "details", "meta"}
+HdrVals(f) == IF f \in {"details", "meta"} THEN 0..2       \* number of entries (only grows)
+              ELSE 0..2                                      \* 0 = None, 1 / 2 = two different values
+
 VARIABLES mem,    \* [Lists -> Seq(item ids)]
           view,   \* [Lists -> Seq(item ids)] : cached renderings
+          hdr,    \* [Hdrs -> value] : header fields of the in-memory record
           n,      \* number of add operations so far
           hist
-vars == <<mem, view, n, hist>>
+vars == <<mem, view, hdr, n, hist>>
 
 Init == /\ mem = [l \in Lists |-> <<>>] /\ view = [l \in Lists |-> <<>>] /\ n = 0 /\ hist = <<>>
+        /\ hdr = [f \in Hdrs |-> 0]
 
-Add(l) == /\ n < MaxAdds
+Add(l) == /\ n < MaxAdds /\ Len(hist) < MaxOps
+          /\ UNCHANGED hdr
           /\ mem' = [mem EXCEPT ![l] = Append(@, n + 1)]
           /\ view' = [view EXCEPT ![l] = Append(@, n + 1)]
           /\ n' = n + 1
           /\ hist' = Append(hist, <<"add", l>>)
 
 Render(m) == m            \* from-scratch rendering of the in-memory lists
-ReadRecord == /\ hist # <<>> /\ hist[Len(hist)][1] # "read"
-              /\ hist' = Append(hist, <<"read", view>>)
-              /\ UNCHANGED <<mem, view, n>>
+(* a header field is assigned (or, for the growing ones, extended by one entry) *)
+SetHdr(f, v) == /\ Len(hist) < MaxOps /\ v # hdr[f]
+                /\ (f \in {"details", "meta"} => v = hdr[f] + 1)
+                /\ hdr' = [hdr EXCEPT ![f] = v]
+                /\ hist' = Append(hist, <<"set", f, v>>)
+                /\ UNCHANGED <<mem, view, n>>
 
-Next == (\E l \in Lists : Add(l)) \/ ReadRecord
+ReadRecord == /\ hist # <<>> /\ hist[Len(hist)][1] # "read" /\ Len(hist) < MaxOps
+              /\ hist' = Append(hist, <<"read", view, hdr>>)      \* what a read returns: cached lists, fresh header
+              /\ UNCHANGED <<mem, view, hdr, n>>
+
+Next == (\E l \in Lists : Add(l)) \/ ReadRecord \/ (\E f \in Hdrs : \E v \in HdrVals(f) : SetHdr(f, v))
 Spec == Init /\ [][Next]_vars
 
 ViewCoherent == \A l \in Lists : view[l] = Render(mem)[l]
 EveryListRepresented == DOMAIN view = Lists
+\* every read returns the header as it is at that moment
+HeaderCoherent == \A i \in 1..Len(hist) : hist[i][1] = "read" =>
+                    \A f \in Hdrs : hist[i][3][f] =
+                      (LET sets == {j \in 1..(i - 1) : hist[j][1] = "set" /\ hist[j][2] = f} IN
+                        IF sets = {} THEN 0 ELSE hist[CHOOSE j \in sets : \A k \in sets : k <= j][3])
 ListsOnlyGrow == [][\A l \in Lists : Len(mem'[l]) >= Len(mem[l])]_vars
 
 ----------------------------------------------------------------------
@@ -72,5 +100,5 @@ StrictUnlessAllowed == \A k \in Scalars : "nonstandard" \notin JsonToken(k, FALS
 Table == {[k |-> k, c |-> c, allow |-> a, base |-> BaseKind(k, a), tok |-> JsonToken(k, a),
            cont |-> JsonContainer(c)] : k \in Scalars, c \in Containers, a \in BOOLEAN}
 EmitTable == (n = 0 /\ hist = <<>>) => PrintT(<<"TABLE", Table>>)
-EmitHist == (n = MaxAdds) => PrintT(<<"HIST", hist>>)
+EmitHist == (Len(hist) = MaxOps /\ \E i \in 1..Len(hist) : hist[i][1] = "read") => PrintT(<<"HIST", hist>>)
 ======================================================================
